@@ -8,6 +8,23 @@ os.environ.setdefault('OMP_NUM_THREADS', '1')
 os.environ.setdefault('MKL_NUM_THREADS', '1')
 
 
+_SCRATCH = {'root': None, 'n': 0}
+
+
+def _scratch_dir():
+    """a fresh directory below one per-process scratch root that is removed at interpreter exit"""
+    import atexit
+    import shutil
+    import tempfile
+    if _SCRATCH['root'] is None:
+        _SCRATCH['root'] = tempfile.mkdtemp(prefix='verif_dc_')
+        atexit.register(shutil.rmtree, _SCRATCH['root'], True)
+    _SCRATCH['n'] += 1
+    d = '%s/d%d' % (_SCRATCH['root'], _SCRATCH['n'])
+    os.makedirs(d)
+    return d
+
+
 def _fail(fails, sc, clause, obs, exp):
     fails.append({'scenario': sc, 'mismatches': [{'clause': clause, 'observed': repr(obs)[:300], 'expected': str(exp)[:200]}]})
 
@@ -81,7 +98,7 @@ def isolation(tier='quick'):
             base = lazy_dataset.new(fresh()).map(lambda x: {'v': list(x['v']), 'arr': np.array(x['arr'])})
             if which == 'cache':
                 return base.cache()
-            return base.diskcache(tempfile.mkdtemp(prefix='verif_dc_') + '/c')
+            return base.diskcache(_scratch_dir() + '/c')
         ds = build()
         pristine = snap(build())
         for ai in range(7):
@@ -779,7 +796,7 @@ def isolation_more(tier='quick'):
                                                                 immutable_warranty='copy')))
         builders.append(('map(fresh %s).diskcache()' % sname, True,
                          lambda: lazy_dataset.new({'k%d' % i: i for i in range(3)}).map(lambda i: mk(i)).diskcache(
-                             tempfile.mkdtemp(prefix='verif_dc_') + '/c')))
+                             _scratch_dir() + '/c')))
         for bname, keyed, build in builders:
             n_h = len(loops(build(), keyed, mutate))
             for hi in range(n_h):
